@@ -287,11 +287,8 @@ impl DependencyProvider for SimProvider {
             req.await;
         }
         let w = &self.core.world;
-        let out = candidates
-            .iter()
-            .copied()
-            .filter(|c| w.vs_matches(version_set.0, c.0) != inverse)
-            .collect();
+        let ids: Vec<u32> = candidates.iter().map(|c| c.0).collect();
+        let out = w.filter(&ids, version_set.0, inverse).into_iter().map(SolvableId).collect();
         guard.deliver();
         out
     }
